@@ -1,3 +1,502 @@
-import ArrModel.Reorder
+import ArrProofs.Lemmas.C12Rot
+import ArrProofs.Lemmas.C12FlipAll
+/-!
+# C12 — flip, roll and quarter-turn rotation are exact coordinate maps with inverses
+
+Model under test: `ArrModel/Reorder.lean` (`flipAxis` / `rollAxis` with their three arms on the flat element vector,
+`accumShifts`, `Arr.flip/flipud/fliplr/roll/rot90`).  Every statement is for every rank, every axis length and every
+integer shift (no bound).  Standing hypotheses of the coordinate theorems: the array is well formed
+(`elems.length = shape.prod`) and has no axis of length zero (on an empty array there is no coordinate to speak about and
+the Rust code may refuse the split).
+
+Vocabulary (definitions in `Lemmas/C12Perm.lean`, `Lemmas/C12Arr.lean`):
+`flipCoord shape k c = c.set k (shape[k] − 1 − c[k])`, `rollIdx s n i = ((i − s) mod n)` (Euclidean remainder on `Int`),
+`rollCoord shape k s c = c.set k (rollIdx s shape[k] c[k])`, `totalShift ps k` = sum of the shifts paired with axis `k`,
+`rollPairs nd shift axes` = the (normalised axis, shift) pairs.
+-/
 namespace ArrModel.C12
+open ArrModel Arr
+variable {α : Type}
+
+/-! ### flip -/
+
+/-- **core of flip**: on the flat element vector of an array of shape `shape`, `flip_axis(ax)` succeeds, keeps the
+length, and the element at coordinate `c` of the result is the input element at `c` with `c[ax] ↦ n − 1 − c[ax]`
+(proved by induction on the axis number through the three arms of the code: first axis, last axis, inner axis) -/
+theorem flipAxis_at (ax : Nat) (shape : List Nat) (elems : List α)
+    (hpos : ∀ d ∈ shape, 0 < d) (hlen : elems.length = shape.prod) (hax : ax < shape.length) :
+    ∃ es, flipAxis ax shape elems = .ok es ∧ es.length = elems.length ∧
+      ∀ c, inRange shape c = true →
+        es[ravel shape c]? = elems[ravel shape (c.set ax (shape.getD ax 0 - 1 - c.getD ax 0))]? :=
+  flipAxis_spec ax shape elems hpos hlen hax
+
+/-- **flip along a list of axes** (any spelling, repetitions allowed): shape kept, and the element at `c` comes from the
+coordinate obtained by applying the single-axis maps of the listed axes -/
+theorem flip_list_at (a : Arr α) (axes : List Int) (hwf : a.WF) (hpos : ∀ d ∈ a.shape, 0 < d)
+    (hv : ∀ x ∈ axes, normalizeAxis a.ndim x < a.ndim) :
+    ∃ r, a.flip (some axes) = .ok r ∧ r.shape = a.shape ∧ r.WF ∧
+      ∀ c, inRange a.shape c = true →
+        r.get? c = a.get? ((axes.map (normalizeAxis a.ndim)).foldr (flipCoord a.shape) c) :=
+  flip_list_spec a axes hwf hpos hv
+
+/-- **flip along one axis** (either spelling of the axis): shape kept; the index along that axis is sent to `n − 1 − i`,
+every other coordinate stays -/
+theorem flip_at (a : Arr α) (ax : Int) (hwf : a.WF) (hpos : ∀ d ∈ a.shape, 0 < d)
+    (hk : normalizeAxis a.ndim ax < a.ndim) :
+    ∃ r, a.flip (some [ax]) = .ok r ∧ r.shape = a.shape ∧ r.WF ∧
+      ∀ c, inRange a.shape c = true →
+        r.get? c = a.get? (c.set (normalizeAxis a.ndim ax)
+          (a.shape.getD (normalizeAxis a.ndim ax) 0 - 1 - c.getD (normalizeAxis a.ndim ax) 0)) :=
+  flip_list_at a [ax] hwf hpos (fun x hx => by simp at hx; subst hx; exact hk)
+
+/-- **both spellings of an axis name the same flip**: `k` and `k − ndim` -/
+theorem flip_spellings (a : Arr α) (k : Nat) (hk : k < a.ndim) :
+    a.flip (some [(k : Int) - a.ndim]) = a.flip (some [(k : Int)]) := by
+  have e1 : normalizeAxis a.ndim ((k : Int) - a.ndim) = k := by
+    unfold normalizeAxis; rw [if_pos (by omega)]
+    have : ¬ ((k : Int) - a.ndim + a.ndim < 0) := by omega
+    simp only [this, if_false]; omega
+  have e2 : normalizeAxis a.ndim (k : Int) = k := normalizeAxis_ofNat _ _
+  unfold Arr.flip
+  simp only [List.map_cons, List.map_nil, e1, e2]
+
+/-- **flip without axes reverses the flat order**: element `i` of the result is element `len − 1 − i` -/
+theorem flip_none (a : Arr α) (hwf : a.WF) :
+    ∃ r, a.flip none = .ok r ∧ r.shape = a.shape ∧ r.WF ∧
+      ∀ i, i < a.elems.length → r.elems[i]? = a.elems[a.elems.length - 1 - i]? := by
+  have hl : a.shape.prod = a.elems.reverse.length := by rw [List.length_reverse]; exact hwf.symm
+  refine ⟨⟨a.elems.reverse, a.shape⟩, ?_, rfl, hl.symm, fun i hi => List.getElem?_reverse hi⟩
+  simp only [Arr.flip, Arr.new, hl, if_true]
+
+/-- **flip without axes, in coordinates**: every coordinate `c[k]` is mirrored to `n_k − 1 − c[k]`
+(`flipAll shape c = zipWith (fun d x => d − 1 − x) shape c`) -/
+theorem flip_none_at (a : Arr α) (hwf : a.WF) :
+    ∃ r, a.flip none = .ok r ∧ r.shape = a.shape ∧ r.WF ∧
+      ∀ c, inRange a.shape c = true → r.get? c = a.get? (flipAll a.shape c) :=
+  flip_none_spec a hwf
+
+/-- **flip without axes is the flip along all axes** -/
+theorem flip_none_eq_all_axes (a : Arr α) (hwf : a.WF) (hpos : ∀ d ∈ a.shape, 0 < d) :
+    a.flip none = a.flip (some ((List.range a.ndim).map Int.ofNat)) :=
+  flip_none_eq_all a hwf hpos
+
+/-- **the multi-axis flip is the composition of the single-axis flips**, in list order -/
+theorem flip_cons (a : Arr α) (x : Int) (xs : List Int) (hwf : a.WF) (hpos : ∀ d ∈ a.shape, 0 < d)
+    (hk : normalizeAxis a.ndim x < a.ndim) :
+    a.flip (some (x :: xs)) = a.flip (some [x]) >>= fun r => r.flip (some xs) := by
+  obtain ⟨es, h1, h2, _⟩ := flipAxis_spec (normalizeAxis a.ndim x) a.shape a.elems hpos hwf hk
+  have hl : a.shape.prod = es.length := by rw [h2]; exact hwf.symm
+  have hnot : ¬ normalizeAxis a.ndim x ≥ a.ndim := by omega
+  have hsingle : a.flip (some [x]) = .ok ⟨es, a.shape⟩ := by
+    unfold Arr.flip
+    simp only [List.map_cons, List.map_nil, List.any_cons, List.any_nil, hnot, decide_false, Bool.or_false,
+      Bool.false_eq_true, if_false, List.foldl_cons, List.foldl_nil, Res.bind_ok, h1, Arr.reshape, Arr.flat, Arr.new, hl, if_true]
+  rw [hsingle, Res.bind_ok]
+  unfold Arr.flip
+  simp only [Arr.ndim] at hnot h1
+  simp only [List.map_cons, List.any_cons, hnot, decide_false, Bool.false_or, List.foldl_cons, Res.bind_ok, h1, Arr.ndim]
+  rfl
+
+theorem flip_nil (a : Arr α) (hwf : a.WF) : a.flip (some []) = .ok a := by
+  unfold Arr.flip
+  simp only [List.map_nil, List.any_nil, Bool.false_eq_true, if_false, List.foldl_nil, Res.bind_ok, Arr.reshape, Arr.flat,
+    Arr.new, hwf.symm, if_true]
+
+/-- **flipping twice along the same axis restores the array** -/
+theorem flip_flip (a : Arr α) (ax : Int) (hwf : a.WF) (hpos : ∀ d ∈ a.shape, 0 < d)
+    (hk : normalizeAxis a.ndim ax < a.ndim) :
+    (a.flip (some [ax]) >>= fun r => r.flip (some [ax])) = .ok a := by
+  obtain ⟨r, h1, h2, h3, h4⟩ := flip_list_at a [ax] hwf hpos (fun x hx => by simp at hx; subst hx; exact hk)
+  have hnd : r.ndim = a.ndim := by simp only [Arr.ndim, h2]
+  obtain ⟨r2, g1, g2, g3, g4⟩ := flip_list_at r [ax] h3 (by rw [h2]; exact hpos)
+    (fun x hx => by simp at hx; subst hx; rw [hnd]; exact hk)
+  rw [h1, Res.bind_ok, g1]
+  congr 1
+  apply Arr.ext_get r2 a g3 hwf (by rw [g2, h2])
+  intro c hc
+  rw [g2] at hc
+  rw [g4 c hc]
+  rw [h2] at hc
+  simp only [List.map_cons, List.map_nil, List.foldr_cons, List.foldr_nil, hnd, h2] at g4 h4 ⊢
+  rw [h4 _ (inRange_flipCoord a.shape c _ hc hk), flipCoord_flipCoord a.shape c _ hc hk]
+
+/-- **reversing the flat order twice restores the array** -/
+theorem flip_none_flip_none (a : Arr α) (hwf : a.WF) : (a.flip none >>= fun r => r.flip none) = .ok a := by
+  have hl : a.shape.prod = a.elems.length := hwf.symm
+  simp only [Arr.flip, Arr.new, List.length_reverse, hl, if_true, Res.bind_ok, List.reverse_reverse]
+
+/-- **an axis outside the rank is refused with an error** (no panic, no data), wherever it stands in the list -/
+theorem flip_rejects (a : Arr α) (axes : List Int) (h : ∃ x ∈ axes, normalizeAxis a.ndim x ≥ a.ndim) :
+    a.flip (some axes) = .err .AxisOutOfBounds := by
+  obtain ⟨x, hx, hge⟩ := h
+  have hany : (axes.map (normalizeAxis a.ndim)).any (fun x => decide (x ≥ a.ndim)) = true := by
+    rw [List.any_eq_true]
+    exact ⟨_, List.mem_map.2 ⟨x, hx, rfl⟩, by simpa using hge⟩
+  unfold Arr.flip
+  simp only [hany, if_true]
+
+/-- **`flipud` / `fliplr` are the flips of axis 0 / axis 1**, refused below rank 1 / rank 2 -/
+theorem flipud_eq (a : Arr α) : a.flipud = if a.ndim = 0 then .err .UnsupportedDimension else a.flip (some [0]) := rfl
+
+theorem fliplr_eq (a : Arr α) : a.fliplr = if a.ndim = 0 ∨ a.ndim = 1 then .err .UnsupportedDimension else a.flip (some [1]) := rfl
+
+/-! ### roll -/
+
+/-- **core of roll**: on the flat element vector, `roll_axis(ax, s)` for EVERY integer `s` succeeds, keeps the length,
+and the element at coordinate `c` of the result is the input element at `c` with `c[ax] ↦ (c[ax] − s) mod n` -/
+theorem rollAxis_at (ax : Nat) (shape : List Nat) (s : Int) (elems : List α)
+    (hpos : ∀ d ∈ shape, 0 < d) (hlen : elems.length = shape.prod) (hax : ax < shape.length) :
+    ∃ es, rollAxis ax shape s elems = .ok es ∧ es.length = elems.length ∧
+      ∀ c, inRange shape c = true →
+        es[ravel shape c]? =
+          elems[ravel shape (c.set ax ((((c.getD ax 0 : Nat) : Int) - s) % ((shape.getD ax 0 : Nat) : Int)).toNat)]? :=
+  rollAxis_spec ax shape s elems hpos hlen hax
+
+/-- **`Vec::rotate_right(s mod len)` as an index map**, every integer `s` -/
+theorem rotateRight_at (l : List α) (s : Int) (i : Nat) (hi : i < l.length) :
+    (rotateRight l (s % (l.length : Int)).toNat)[i]? = l[(((i : Int) - s) % (l.length : Int)).toNat]? :=
+  (rollPerm_permSpec s).get α l i hi
+
+/-- **roll along the flattened order** (no axis given): shape kept; flat position `i` of the result holds the element
+that was at flat position `(i − s) mod len` — i.e. the element at `j` moves to `(j + s) mod len` -/
+theorem roll_flat (a : Arr α) (s : Int) (hwf : a.WF) :
+    ∃ r, a.roll [s] none = .ok r ∧ r.shape = a.shape ∧ r.WF ∧
+      ∀ i, i < a.elems.length → r.elems[i]? = a.elems[(((i : Int) - s) % (a.elems.length : Int)).toNat]? := by
+  have hbc := broadcast_flat_same [s] [0] rfl (by simp)
+  have hl : a.shape.prod = (rotateRight a.elems (s % (a.elems.length : Int)).toNat).length := by
+    rw [rotateRight_length]; exact hwf.symm
+  refine ⟨⟨rotateRight a.elems (s % (a.elems.length : Int)).toNat, a.shape⟩, ?_, rfl, hl.symm,
+    fun i hi => rotateRight_at a.elems s i hi⟩
+  unfold Arr.roll
+  simp only [Option.isNone_none, if_true, Option.getD_none, hbc, Res.bind_ok]
+  simp only [Arr.ndim, Arr.ravel, Arr.flat, List.length_cons, List.length_nil, List.zip_cons_cons, List.zip_nil_right,
+    List.map_cons, List.map_nil, accumShifts, List.find?_nil, List.any_cons, List.any_nil, List.foldl_cons, List.foldl_nil,
+    Arr.reshape, Arr.new, hl, if_true]
+  simp [normalizeAxis]
+
+/-- **roll with a list of shifts paired with a list of axes of the same length** (repeated axes allowed, any spelling):
+shape kept, and the element at `c` comes from the coordinate obtained by composing the single-axis maps of the
+accumulated (axis, total shift) pairs -/
+theorem roll_list_at (a : Arr α) (shift axs : List Int) (hlen : shift.length = axs.length) (hne : shift ≠ [])
+    (hwf : a.WF) (hpos : ∀ d ∈ a.shape, 0 < d) (hv : ∀ x ∈ axs, normalizeAxis a.ndim x < a.ndim) :
+    ∃ r, a.roll shift (some axs) = .ok r ∧ r.shape = a.shape ∧ r.WF ∧
+      ∀ c, inRange a.shape c = true →
+        r.get? c = a.get? ((accumShifts (rollPairs a.ndim shift axs)).foldr (fun p c => rollCoord a.shape p.1 p.2 c) c) := by
+  have hbc := broadcast_flat_same shift axs hlen hne
+  have hvalid := rollPairs_valid a.ndim shift axs hv
+  have hany : (accumShifts (rollPairs a.ndim shift axs)).any (fun p => decide (p.1 ≥ a.ndim)) = false := by
+    rw [List.any_eq_false]
+    intro p hp
+    have := hvalid p hp
+    simp only [decide_eq_true_eq]; omega
+  have hnd : 0 < a.ndim := by
+    cases axs with
+    | nil => cases shift with | nil => exact absurd rfl hne | cons _ _ => simp at hlen
+    | cons x _ => have := hv x List.mem_cons_self; omega
+  cases a with | mk elems shape =>
+  simp only [Arr.ndim] at hv hvalid hany hnd ⊢
+  simp only [Arr.WF] at hwf
+  cases shape with
+  | nil => simp at hnd
+  | cons d ds =>
+    cases ds with
+    | nil =>
+      -- rank 1: successive rotations of the element vector
+      obtain ⟨h2, h3⟩ := rotFold_at d (accumShifts (rollPairs 1 shift axs)) hvalid elems hwf
+      have hl : [d].prod = ((accumShifts (rollPairs 1 shift axs)).foldl (fun es p => rotateRight es (p.2 % (es.length : Int)).toNat) elems).length := by
+        rw [h2]; exact hwf.symm
+      refine ⟨⟨_, [d]⟩, ?_, rfl, hl.symm, fun c hc => h3 c hc⟩
+      unfold Arr.roll
+      simp only [Option.isNone_some, Bool.false_eq_true, if_false, Option.getD_some, hbc, Res.bind_ok]
+      simp only [Arr.ndim, List.length_cons, List.length_nil, Nat.lt_irrefl, if_false, Nat.zero_add]
+      have hany' := hany
+      simp only [List.length_cons, List.length_nil, Nat.zero_add, rollPairs] at hany'
+      simp only [rollPairs, hany', Bool.false_eq_true, if_false, Arr.reshape, Arr.flat, Arr.new]
+      exact if_pos (by simpa [rollPairs] using hl)
+    | cons d2 ds =>
+      obtain ⟨es, h1, h2, h3⟩ := rollFold_at (d :: d2 :: ds) hpos (accumShifts (rollPairs (ds.length + 1 + 1) shift axs))
+        hvalid elems hwf
+      have hl : (d :: d2 :: ds).prod = es.length := by rw [h2]; exact hwf.symm
+      refine ⟨⟨es, d :: d2 :: ds⟩, ?_, rfl, hl.symm, fun c hc => h3 c hc⟩
+      unfold Arr.roll
+      simp only [Option.isNone_some, Bool.false_eq_true, if_false, Option.getD_some, hbc, Res.bind_ok]
+      simp only [Arr.ndim, List.length_cons, List.length_nil, Nat.lt_irrefl, if_false, Nat.zero_add]
+      have hany' := hany
+      simp only [List.length_cons, rollPairs] at hany' h1
+      simp only [hany', Bool.false_eq_true, if_false, h1, Res.bind_ok, Arr.new, hl, if_true]
+
+/-- **roll along one axis** (either spelling) by EVERY integer shift: shape kept; the index along the axis is sent to
+`(i − s) mod n` (the element at index `j` moves to `(j + s) mod n`), every other coordinate stays -/
+theorem roll_at (a : Arr α) (s ax : Int) (hwf : a.WF) (hpos : ∀ d ∈ a.shape, 0 < d)
+    (hk : normalizeAxis a.ndim ax < a.ndim) :
+    ∃ r, a.roll [s] (some [ax]) = .ok r ∧ r.shape = a.shape ∧ r.WF ∧
+      ∀ c, inRange a.shape c = true →
+        r.get? c = a.get? (c.set (normalizeAxis a.ndim ax)
+          ((((c.getD (normalizeAxis a.ndim ax) 0 : Nat) : Int) - s) % ((a.shape.getD (normalizeAxis a.ndim ax) 0 : Nat) : Int)).toNat) := by
+  obtain ⟨r, h1, h2, h3, h4⟩ := roll_list_at a [s] [ax] rfl (by simp) hwf hpos (fun x hx => by simp at hx; subst hx; exact hk)
+  refine ⟨r, h1, h2, h3, ?_⟩
+  intro c hc
+  rw [h4 c hc]
+  simp only [rollPairs, List.zip_cons_cons, List.zip_nil_right, List.map_cons, List.map_nil, accumShifts, List.find?_nil,
+    List.foldr_cons, List.foldr_nil]
+  rfl
+
+/-- **accumulated shifts**: in the multi-axis roll every source coordinate is `(c[k] − S_k) mod n_k`, where `S_k` is the
+SUM of all shifts listed for axis `k` (shifts for a repeated axis add up; axes not listed stay) -/
+theorem roll_list_total (a : Arr α) (shift axs : List Int) (hlen : shift.length = axs.length) (hne : shift ≠ [])
+    (hwf : a.WF) (hpos : ∀ d ∈ a.shape, 0 < d) (hv : ∀ x ∈ axs, normalizeAxis a.ndim x < a.ndim) :
+    ∃ r, a.roll shift (some axs) = .ok r ∧ r.shape = a.shape ∧
+      ∀ c, inRange a.shape c = true → ∃ c', inRange a.shape c' = true ∧ r.get? c = a.get? c' ∧
+        ∀ k, k < a.ndim →
+          c'.getD k 0 = ((((c.getD k 0 : Nat) : Int) - totalShift (rollPairs a.ndim shift axs) k) % ((a.shape.getD k 0 : Nat) : Int)).toNat := by
+  obtain ⟨r, h1, h2, _, h4⟩ := roll_list_at a shift axs hlen hne hwf hpos hv
+  have hvalid := rollPairs_valid a.ndim shift axs hv
+  refine ⟨r, h1, h2, ?_⟩
+  intro c hc
+  refine ⟨_, ?_, h4 c hc, ?_⟩
+  · exact inRange_foldr (fun (p : Nat × Int) c => rollCoord a.shape p.1 p.2 c) a.shape (fun p => p.1 < a.shape.length)
+      (fun x hx c hc => inRange_rollCoord a.shape c x.1 x.2 hc hx) _ hvalid c hc
+  · intro k hk
+    rw [foldr_rollCoord_getD a.shape hpos _ hvalid c hc k hk, accumShifts_total]
+    rfl
+
+/-- **rolling by `s` and then by `−s` along the same axis restores the array** -/
+theorem roll_roll_neg (a : Arr α) (s ax : Int) (hwf : a.WF) (hpos : ∀ d ∈ a.shape, 0 < d)
+    (hk : normalizeAxis a.ndim ax < a.ndim) :
+    (a.roll [s] (some [ax]) >>= fun r => r.roll [-s] (some [ax])) = .ok a := by
+  obtain ⟨r, h1, h2, h3, h4⟩ := roll_at a s ax hwf hpos hk
+  have hnd : r.ndim = a.ndim := by simp only [Arr.ndim, h2]
+  obtain ⟨r2, g1, g2, g3, g4⟩ := roll_at r (-s) ax h3 (by rw [h2]; exact hpos) (by rw [hnd]; exact hk)
+  rw [h1, Res.bind_ok, g1]
+  congr 1
+  apply Arr.ext_get r2 a g3 hwf (by rw [g2, h2])
+  intro c hc
+  rw [g2] at hc
+  rw [g4 c hc]
+  rw [h2] at hc
+  rw [hnd, h2]
+  have hkl : normalizeAxis a.ndim ax < c.length := by rw [inRange_length _ _ hc]; exact hk
+  have hd : 0 < a.shape.getD (normalizeAxis a.ndim ax) 0 := by
+    have := inRange_getD_lt a.shape c hc _ hk; omega
+  have e := rollCoord_rollCoord a.shape c (normalizeAxis a.ndim ax) s (-s) hkl hd
+  rw [Int.add_right_neg, rollCoord_zero a.shape c _ hc hk] at e
+  have hin := inRange_rollCoord a.shape c (normalizeAxis a.ndim ax) (-s) hc hk
+  have := h4 _ hin
+  simp only [rollCoord, rollIdx] at e hin this
+  rw [this, e]
+
+/-- **rolling the flat order by `s` and then by `−s` restores the array** -/
+theorem roll_flat_roll_neg (a : Arr α) (s : Int) (hwf : a.WF) :
+    (a.roll [s] none >>= fun r => r.roll [-s] none) = .ok a := by
+  obtain ⟨r, h1, h2, h3, h4⟩ := roll_flat a s hwf
+  obtain ⟨r2, g1, g2, g3, g4⟩ := roll_flat r (-s) h3
+  have hl : r.elems.length = a.elems.length := by rw [h3, hwf, h2]
+  rw [h1, Res.bind_ok, g1]
+  congr 1
+  cases r2 with | mk e2 s2 =>
+  cases a with | mk ea sa =>
+  simp only at g2 h2 hl g4 h4 hwf g3 ⊢
+  simp only [Arr.WF] at g3 hwf h3
+  subst g2
+  congr 1
+  · apply List.ext_getElem?
+    intro i
+    by_cases hi : i < ea.length
+    · rw [g4 i (by omega), hl]
+      have hlt := rollIdx_lt (-s) ea.length i hi
+      have := h4 _ hlt
+      simp only [rollIdx] at hlt this
+      rw [this]
+      have e := rollIdx_rollIdx s (-s) ea.length i (by omega)
+      rw [Int.add_right_neg, rollIdx_zero _ _ hi] at e
+      simp only [rollIdx] at e
+      rw [e]
+    · rw [List.getElem?_eq_none (by omega), List.getElem?_eq_none (by omega)]
+
+/-- **axes outside the rank are refused with an error** -/
+theorem roll_rejects (a : Arr α) (s ax : Int) (h : normalizeAxis a.ndim ax ≥ a.ndim) :
+    a.roll [s] (some [ax]) = .err .AxisOutOfBounds := by
+  have hbc := broadcast_flat_same [s] [ax] rfl (by simp)
+  unfold Arr.roll
+  simp only [Option.isNone_some, Bool.false_eq_true, if_false, Option.getD_some, hbc, Res.bind_ok]
+  simp only [Arr.ndim, List.length_cons, List.length_nil, List.zip_cons_cons, List.zip_nil_right,
+    List.map_cons, List.map_nil, accumShifts, List.find?_nil, List.any_cons, List.any_nil]
+  simp only [Arr.ndim] at h
+  simp [h]
+
+/-! ### rot90
+
+`Arr.turn a zero i j` (Lemmas/C12Rot.lean) is ONE quarter turn in the plane of axes `(i, j)`: flip axis `j`, then exchange
+axes `i` and `j`; `Arr.turns a zero i j n` is `n` successive turns.  Valid axes: rank ≥ 2 and `−ndim ≤ a0, a1 < ndim`
+(the two axes may even coincide). -/
+
+/-- **the turn count only matters modulo 4** (every input, valid or not) -/
+theorem rot90_add_four (a : Arr α) (zero : α) (k : Nat) (axes : List Int) :
+    a.rot90 zero (k + 4) axes = a.rot90 zero k axes := by
+  unfold Arr.rot90; simp only [Nat.add_mod_right]
+
+/-- **zero turns (mod 4) return the array** -/
+theorem rot90_zero (a : Arr α) (zero : α) (k : Nat) (a0 a1 : Int) (hnd : 2 ≤ a.ndim)
+    (h0 : -(a.ndim : Int) ≤ a0 ∧ a0 < a.ndim) (h1 : -(a.ndim : Int) ≤ a1 ∧ a1 < a.ndim) (hk : k % 4 = 0) :
+    a.rot90 zero k [a0, a1] = .ok a := by
+  rw [rot90_unfold a zero k a0 a1 hnd h0 h1, if_pos hk]
+
+/-- **one quarter turn is: flip the second axis, then exchange the two axes** (`swapaxes`) -/
+theorem rot90_one (a : Arr α) (zero : α) (k : Nat) (a0 a1 : Int) (hnd : 2 ≤ a.ndim)
+    (h0 : -(a.ndim : Int) ≤ a0 ∧ a0 < a.ndim) (h1 : -(a.ndim : Int) ≤ a1 ∧ a1 < a.ndim) (hk : k % 4 = 1) :
+    a.rot90 zero k [a0, a1] = a.flip (some [a1]) >>= fun r => r.swapaxes zero a0 a1 := by
+  rw [rot90_unfold a zero k a0 a1 hnd h0 h1, if_neg (by omega), if_neg (by omega), if_pos hk]
+  exact turn_eq_flip_swapaxes a zero a0 a1 (normalize_lt _ _ h0.1 h0.2) (normalize_lt _ _ h1.1 h1.2)
+
+/-- the same single turn, named: `turn` unfolds to exactly that composition -/
+theorem turn_def (a : Arr α) (zero : α) (a0 a1 : Int)
+    (hi : normalizeAxis a.ndim a0 < a.ndim) (hj : normalizeAxis a.ndim a1 < a.ndim) :
+    a.turn zero (normalizeAxis a.ndim a0) (normalizeAxis a.ndim a1)
+      = a.flip (some [a1]) >>= fun r => r.swapaxes zero a0 a1 :=
+  turn_eq_flip_swapaxes a zero a0 a1 hi hj
+
+/-- **rotating by `k` quarter turns equals `k` successive single turns** — every `k`, every rank ≥ 2, every valid ordered
+axis pair in either spelling.  (`k mod 4 = 2` is computed by the code as two flips and `k mod 4 = 3` as exchange-then-flip;
+both are proved equal to 2 resp. 3 successive turns through their coordinate maps, and 4 turns are the identity.) -/
+theorem rot90_eq_turns (a : Arr α) (zero : α) (k : Nat) (a0 a1 : Int) (hwf : a.WF) (hpos : ∀ d ∈ a.shape, 0 < d)
+    (hnd : 2 ≤ a.ndim) (h0 : -(a.ndim : Int) ≤ a0 ∧ a0 < a.ndim) (h1 : -(a.ndim : Int) ≤ a1 ∧ a1 < a.ndim) :
+    a.rot90 zero k [a0, a1] = a.turns zero (normalizeAxis a.ndim a0) (normalizeAxis a.ndim a1) k := by
+  have hi := normalize_lt _ _ h0.1 h0.2
+  have hj := normalize_lt _ _ h1.1 h1.2
+  rw [turns_mod a zero _ _ hwf hpos hi hj k, rot90_unfold a zero k a0 a1 hnd h0 h1]
+  rcases (by omega : k % 4 = 0 ∨ k % 4 = 1 ∨ k % 4 = 2 ∨ k % 4 = 3) with h | h | h | h
+  · rw [h]; rfl
+  · rw [h, if_neg (by omega), if_neg (by omega), if_pos rfl]
+    simp only [Arr.turns, Res.bind_ok]
+  · rw [h, if_neg (by omega), if_pos rfl]
+    obtain ⟨r, p1, p2, p3, p4⟩ := rot2_at a a0 a1 _ _ hwf hpos rfl rfl hi hj
+    obtain ⟨r', q1, q2, q3, q4⟩ := turns2_at a zero _ _ hwf hpos hi hj
+    rw [p1, q1]; congr 1
+    apply Arr.ext_get r r' p3 q3 (by rw [p2, q2])
+    intro c hc
+    rw [p2] at hc
+    rw [p4 c hc, q4 c hc]
+  · rw [h, if_neg (by omega), if_neg (by omega), if_neg (by omega)]
+    obtain ⟨r, p1, p2, p3, p4⟩ := rot3_at a zero _ _ hwf hpos hi hj
+    obtain ⟨r', q1, q2, q3, q4⟩ := turns3_at a zero _ _ hwf hpos hi hj
+    rw [p1, q1]; congr 1
+    apply Arr.ext_get r r' p3 q3 (by rw [p2, q2])
+    intro c hc
+    rw [p4 c hc, q4 c (by rw [q2, ← p2]; exact hc)]
+
+/-- **coordinates of one, two and three turns**; `i`, `j` the normalised axes, `sw` the exchange of entries `i` and `j`
+of a coordinate vector (`permute (swapOrder ndim i j)`):
+one turn: shape exchanged, `r[c] = a[flip_j (sw c)]`; two turns: shape kept, both axes flipped; three turns: shape exchanged,
+`r[c] = a[flip_i (sw c)]` -/
+theorem rot90_at (a : Arr α) (zero : α) (k : Nat) (a0 a1 : Int) (hwf : a.WF) (hpos : ∀ d ∈ a.shape, 0 < d)
+    (hnd : 2 ≤ a.ndim) (h0 : -(a.ndim : Int) ≤ a0 ∧ a0 < a.ndim) (h1 : -(a.ndim : Int) ≤ a1 ∧ a1 < a.ndim) :
+    ∃ r, a.rot90 zero k [a0, a1] = .ok r ∧ r.WF ∧
+      r.shape = (if k % 2 = 0 then a.shape
+                 else permute (swapOrder a.ndim (normalizeAxis a.ndim a0) (normalizeAxis a.ndim a1)) a.shape) ∧
+      ∀ c, inRange r.shape c = true →
+        r.get? c = a.get?
+          (if k % 4 = 0 then c
+           else if k % 4 = 1 then
+             flipCoord a.shape (normalizeAxis a.ndim a1)
+               (permute (swapOrder a.ndim (normalizeAxis a.ndim a0) (normalizeAxis a.ndim a1)) c)
+           else if k % 4 = 2 then
+             flipCoord a.shape (normalizeAxis a.ndim a1) (flipCoord a.shape (normalizeAxis a.ndim a0) c)
+           else
+             flipCoord a.shape (normalizeAxis a.ndim a0)
+               (permute (swapOrder a.ndim (normalizeAxis a.ndim a0) (normalizeAxis a.ndim a1)) c)) := by
+  have hi := normalize_lt _ _ h0.1 h0.2
+  have hj := normalize_lt _ _ h1.1 h1.2
+  rw [rot90_unfold a zero k a0 a1 hnd h0 h1]
+  rcases (by omega : k % 4 = 0 ∨ k % 4 = 1 ∨ k % 4 = 2 ∨ k % 4 = 3) with h | h | h | h
+  · have h2 : k % 2 = 0 := by omega
+    rw [h, h2]; exact ⟨a, rfl, hwf, rfl, fun c _ => rfl⟩
+  · have h2 : ¬ k % 2 = 0 := by omega
+    rw [h, if_neg h2]
+    obtain ⟨r, p1, p2, p3, p4⟩ := turn_at a zero _ _ hwf hpos hi hj
+    exact ⟨r, p1, p3, p2, p4⟩
+  · have h2 : k % 2 = 0 := by omega
+    rw [h, h2]
+    obtain ⟨r, p1, p2, p3, p4⟩ := rot2_at a a0 a1 _ _ hwf hpos rfl rfl hi hj
+    exact ⟨r, p1, p3, p2, fun c hc => p4 c (by rw [← p2]; exact hc)⟩
+  · have h2 : ¬ k % 2 = 0 := by omega
+    rw [h, if_neg h2]
+    obtain ⟨r, p1, p2, p3, p4⟩ := rot3_at a zero _ _ hwf hpos hi hj
+    exact ⟨r, p1, p3, p2, p4⟩
+
+/-- **shape under rotation**: kept for even `k`; for odd `k` the lengths of the two axes are exchanged and every other
+axis keeps its length -/
+theorem rot90_shape (a : Arr α) (zero : α) (k : Nat) (a0 a1 : Int) (hwf : a.WF) (hpos : ∀ d ∈ a.shape, 0 < d)
+    (hnd : 2 ≤ a.ndim) (h0 : -(a.ndim : Int) ≤ a0 ∧ a0 < a.ndim) (h1 : -(a.ndim : Int) ≤ a1 ∧ a1 < a.ndim) :
+    ∃ r, a.rot90 zero k [a0, a1] = .ok r ∧ r.ndim = a.ndim ∧
+      (k % 2 = 0 → r.shape = a.shape) ∧
+      (k % 2 = 1 → ∀ m, m < a.ndim →
+        r.shape.getD m 0 = a.shape.getD (if m = normalizeAxis a.ndim a0 then normalizeAxis a.ndim a1
+                                          else if m = normalizeAxis a.ndim a1 then normalizeAxis a.ndim a0 else m) 0) := by
+  obtain ⟨r, p1, _, p3, _⟩ := rot90_at a zero k a0 a1 hwf hpos hnd h0 h1
+  refine ⟨r, p1, ?_, ?_, ?_⟩
+  · rw [Arr.ndim, p3]; split
+    · rfl
+    · exact permute_swap_length _ _ _ _
+  · intro h; rw [p3, if_pos h]
+  · intro h m hm
+    rw [p3, if_neg (by omega), permute_swap_getD _ _ _ _ _ hm]; rfl
+
+/-- **rotations compose additively**: `k` turns followed by `m` turns are `k + m` turns -/
+theorem rot90_add (a : Arr α) (zero : α) (k m : Nat) (a0 a1 : Int) (hwf : a.WF) (hpos : ∀ d ∈ a.shape, 0 < d)
+    (hnd : 2 ≤ a.ndim) (h0 : -(a.ndim : Int) ≤ a0 ∧ a0 < a.ndim) (h1 : -(a.ndim : Int) ≤ a1 ∧ a1 < a.ndim) :
+    (a.rot90 zero k [a0, a1] >>= fun r => r.rot90 zero m [a0, a1]) = a.rot90 zero (k + m) [a0, a1] := by
+  have hi := normalize_lt _ _ h0.1 h0.2
+  have hj := normalize_lt _ _ h1.1 h1.2
+  rw [rot90_eq_turns a zero k a0 a1 hwf hpos hnd h0 h1, rot90_eq_turns a zero (k + m) a0 a1 hwf hpos hnd h0 h1, turns_add]
+  obtain ⟨r, q1, q2, q3, q4⟩ := turns_ok a zero _ _ hwf hpos hi hj k
+  rw [q1, Res.bind_ok, Res.bind_ok]
+  rw [rot90_eq_turns r zero m a0 a1 q2 q3 (by omega) (by rw [q4]; exact h0) (by rw [q4]; exact h1), q4]
+
+/-- **four successive quarter turns restore the array** -/
+theorem rot90_four_turns (a : Arr α) (zero : α) (a0 a1 : Int) (hwf : a.WF) (hpos : ∀ d ∈ a.shape, 0 < d)
+    (hnd : 2 ≤ a.ndim) (h0 : -(a.ndim : Int) ≤ a0 ∧ a0 < a.ndim) (h1 : -(a.ndim : Int) ≤ a1 ∧ a1 < a.ndim) :
+    (((a.rot90 zero 1 [a0, a1] >>= fun r => r.rot90 zero 1 [a0, a1]) >>= fun r => r.rot90 zero 1 [a0, a1])
+      >>= fun r => r.rot90 zero 1 [a0, a1]) = .ok a := by
+  rw [rot90_add a zero 1 1 a0 a1 hwf hpos hnd h0 h1, rot90_add a zero (1 + 1) 1 a0 a1 hwf hpos hnd h0 h1,
+    rot90_add a zero (1 + 1 + 1) 1 a0 a1 hwf hpos hnd h0 h1]
+  exact rot90_zero a zero _ a0 a1 hnd h0 h1 rfl
+
+/-- **a rotation followed by the complementary rotation restores the array** -/
+theorem rot90_inverse (a : Arr α) (zero : α) (k : Nat) (a0 a1 : Int) (hwf : a.WF) (hpos : ∀ d ∈ a.shape, 0 < d)
+    (hnd : 2 ≤ a.ndim) (h0 : -(a.ndim : Int) ≤ a0 ∧ a0 < a.ndim) (h1 : -(a.ndim : Int) ≤ a1 ∧ a1 < a.ndim) :
+    (a.rot90 zero k [a0, a1] >>= fun r => r.rot90 zero (4 - k % 4) [a0, a1]) = .ok a := by
+  rw [rot90_add a zero k _ a0 a1 hwf hpos hnd h0 h1]
+  exact rot90_zero a zero _ a0 a1 hnd h0 h1 (by omega)
+
+/-- **refusals**: rank below 2, an axis list that is not a pair, or an axis outside `[−ndim, ndim)` give an error -/
+theorem rot90_rejects_rank (a : Arr α) (zero : α) (k : Nat) (axes : List Int) (h : a.ndim < 2) :
+    a.rot90 zero k axes = .err .UnsupportedDimension := by
+  unfold Arr.rot90; rw [if_pos (by omega)]
+
+theorem rot90_rejects_axes (a : Arr α) (zero : α) (k : Nat) (a0 a1 : Int) (hnd : 2 ≤ a.ndim)
+    (h : ¬ ((-(a.ndim : Int) ≤ a0 ∧ a0 < a.ndim) ∧ (-(a.ndim : Int) ≤ a1 ∧ a1 < a.ndim))) :
+    a.rot90 zero k [a0, a1] = .err .ParameterError := by
+  unfold Arr.rot90; rw [if_neg (by omega)]
+  simp only []
+  rw [if_pos (by omega)]
+
+/-! ### non-vacuity -/
+
+example : (⟨List.range 24, [2, 3, 4]⟩ : Arr Nat).WF := by decide
+example : ∀ d ∈ (⟨List.range 24, [2, 3, 4]⟩ : Arr Nat).shape, 0 < d := by decide
+/-- the inner-axis arm (axis 1 of `[2,3,4]`), the input on which the pinned tree misplaced elements -/
+example : (⟨List.range 24, [2, 3, 4]⟩ : Arr Nat).flip (some [1]) =
+    .ok ⟨[8, 9, 10, 11, 4, 5, 6, 7, 0, 1, 2, 3, 20, 21, 22, 23, 16, 17, 18, 19, 12, 13, 14, 15], [2, 3, 4]⟩ := by decide
+example : (⟨List.range 9, [1, 3, 3]⟩ : Arr Nat).flip (some [-2]) = .ok ⟨[6, 7, 8, 3, 4, 5, 0, 1, 2], [1, 3, 3]⟩ := by decide
+/-- a shift larger than the axis (7 on length 3): the pinned tree panicked here -/
+example : (⟨[10, 11, 12], [3]⟩ : Arr Nat).roll [7] (some [0]) = .ok ⟨[12, 10, 11], [3]⟩ := by decide
+example : (⟨[10, 11, 12], [3]⟩ : Arr Nat).roll [-7] none = .ok ⟨[11, 12, 10], [3]⟩ := by decide
+example : (⟨List.range 6, [2, 3]⟩ : Arr Nat).roll [7] (some [1]) = .ok ⟨[2, 0, 1, 5, 3, 4], [2, 3]⟩ := by decide
+example : (⟨List.range 6, [2, 3]⟩ : Arr Nat).roll [1, 1] (some [1, -1]) = .ok ⟨[1, 2, 0, 4, 5, 3], [2, 3]⟩ := by decide
+example : accumShifts [(1, 1), (0, 5), (1, 1)] = [(0, 5), (1, 2)] := by decide
+example : (⟨List.range 6, [2, 3]⟩ : Arr Nat).rot90 0 1 [0, 1] = .ok ⟨[2, 5, 1, 4, 0, 3], [3, 2]⟩ := by decide
+example : (⟨List.range 6, [2, 3]⟩ : Arr Nat).rot90 0 7 [0, -1] = .ok ⟨[3, 0, 4, 1, 5, 2], [3, 2]⟩ := by decide
+example : (2 : Nat) ≤ (⟨List.range 6, [2, 3]⟩ : Arr Nat).ndim ∧ (-(2 : Int) ≤ -1 ∧ (-1 : Int) < 2) := by decide
+example : (⟨List.range 6, [2, 3]⟩ : Arr Nat).flip (some [2]) = .err .AxisOutOfBounds := by decide
+
 end ArrModel.C12
